@@ -149,3 +149,165 @@ def c19(run, scratch):
     run.assumptions += ["TLC + Json module", "item abstraction (kind, line-mapping presence, header key/value) is recorded "
                         "faithfully by the harness; parser questions belong to C05/C06"]
 REPLAYERS["MC_Meta_gen"] = lambda run, scratch, rec: replay_cases(run, scratch, "MC_Meta_gen", [rec["case"]], "meta")
+
+
+# ---------------------------------------------------------------------------------------------
+# C01..C04, C02: index + retrace
+# ---------------------------------------------------------------------------------------------
+def _retrace_corrupt(case):
+    # claim that every query answers "nothing"/the opposite: flips at least one expected value
+    case["wants"] = [[{"canary": 1}] for _ in case["wants"]]
+    case["wants_noparams"] = [[{"canary": 1}] for _ in case["wants_noparams"]]
+    return case
+
+
+def retrace_mc(run, scratch, cfgname, only, workers=10, timeout=3000):
+    """MC_Retrace under one cfg: cases -> real mapper / mapper+params / cache."""
+    raw = tlc_cases(run, scratch, "MC_Retrace_" + cfgname, "MC_Retrace", cfg=f"MC_Retrace_{cfgname}.cfg",
+                    workers=workers, timeout=timeout)
+    header = [c for c in raw if "queries" in c]
+    cases = [c for c in raw if "queries" not in c]
+    if not cases:
+        return
+    qs = header[0]["queries"]
+    c = cases[len(cases) // 3]
+    k = next((k for k, w in enumerate(c["wants"]) if w), 0)
+    run.sample({"mapping": b2s(c["srcs"][0]), "query": _show_query(qs[k]), "spec_answer": _show_answer(c["wants"][k])})
+
+    def sig(case, m):
+        parts = m["api"].split("/")
+        d = {"handle": parts[0]}
+        if len(parts) > 2 and parts[2].startswith("q"):
+            d["query_kind"] = qs[int(parts[2][1:])]["t"]
+        return d
+
+    def detail(case, m):
+        return {}
+    replay_cases(run, scratch, "MC_Retrace_" + cfgname, cases, "retrace", header=header, corrupt=_retrace_corrupt,
+                 extra_args=[only], signature=sig)
+    # make replays self-contained
+    for path, kind in run.violations:
+        try:
+            rec = json.load(open(path))
+            if "queries" not in rec and rec.get("kind", "").startswith("MC_Retrace"):
+                rec["queries"] = qs
+                api = rec.get("api", "")
+                parts = api.split("/")
+                if len(parts) > 2 and parts[2].startswith("q"):
+                    rec["query"] = _show_query(qs[int(parts[2][1:])])
+                    rec["mapping_text"] = b2s(rec["case"]["srcs"][int(parts[1].replace("variant", ""))])
+                json.dump(rec, open(path, "w"), indent=1)
+        except Exception:
+            pass
+
+
+def _show_query(q):
+    if q["t"] == "frame":
+        f = q["frame"]
+        return {"frame": {"class": b2s(f["class"]), "method": b2s(f["method"]),
+                          "line": "".join(map(str, f["line"])),
+                          "file": [b2s(x) for x in f["file"]], "params": [b2s(x) for x in f["params"]]}}
+    if q["t"] == "class":
+        return {"class": b2s(q["name"])}
+    if q["t"] == "method":
+        return {"method": [b2s(q["class"]), b2s(q["method"])]}
+    return {"throwable": b2s(q["throwable"]["class"])}
+
+
+def _show_answer(a):
+    out = []
+    for x in a:
+        if isinstance(x, dict) and "class" in x and "method" in x:
+            out.append({"class": b2s(x["class"]), "method": b2s(x["method"]), "line": "".join(map(str, x["line"])),
+                        "file": [b2s(f) for f in x["file"]]})
+        else:
+            out.append(x)
+    return out
+
+
+def _retrace_trace_corrupt(ev):
+    ev["got"]["cache"] = [{"canary": 1}]
+    ev["got"]["mapper"] = [{"canary": 1}]
+    return ev
+
+
+def retrace_trace(run, scratch, name, focus, n, queries, files, workers=10, timeout=3000):
+    events = harness_trace(scratch, "retrace", name, ["--seed", run.seed, "--n", n, "--queries", queries,
+                                                       "--focus", focus, "--files", ",".join(files)])
+    nload = len([e for e in events if e["t"] == "load"])
+    qev = [e for e in events if e["t"] == "q"]
+    if qev:
+        e = qev[len(qev) // 2]
+        run.sample({"trace_event": {"session": e["sid"], "query": _show_query(e["q"]),
+                                    "cache_answer": _show_answer(e["got"]["cache"]) if isinstance(e["got"]["cache"], list) else e["got"]["cache"]}})
+    wf, _ = validate_pure_trace(run, scratch, name, "Trace_Retrace", events, workers=workers, timeout=timeout,
+                                corrupt=_retrace_trace_corrupt, canary_pred=lambda ev: ev["t"] == "q" and ev["sid"] == 1,
+                                signature=lambda ev: {"query_kind": ev.get("q", {}).get("t")})
+    run.steps[-1]["sessions"] = nload
+    run.steps[-1]["sessions_in_stated_domain"] = len([i for i in wf if i < nload])
+    if len([i for i in wf if i < nload]) < nload // 2:
+        raise ToolError(f"{name}: most generated sessions fell outside the stated domain (vacuous trace)")
+
+
+COMMON_ASSUME = ["TLC (tla2tools 1.8.0) and its Json/IOUtils module overrides",
+                 "harness event/answer encoding (enc.rs, handles.rs), checked by binding canaries",
+                 "bounded alphabets in model-checked generation; seeded sampling in traces"]
+
+
+@prop("C01")
+def c01(run, scratch):
+    t = run.tier == "thorough"
+    retrace_mc(run, scratch, "entries1", "frame", workers=4)
+    retrace_mc(run, scratch, "entries_thorough" if t else "entries_quick", "frame", workers=14 if t else 10)
+    retrace_mc(run, scratch, "files_thorough" if t else "files_quick", "frame", workers=14 if t else 10)
+    retrace_trace(run, scratch, "Trace_Retrace_frame", "frame", 200 if t else 40, 300 if t else 120, SMALL_CORPUS,
+                  workers=14 if t else 10)
+    run.exhaustive = False
+    run.assumptions += COMMON_ASSUME
+
+
+@prop("C03")
+def c03(run, scratch):
+    t = run.tier == "thorough"
+    retrace_mc(run, scratch, "blocks_thorough" if t else "blocks_quick", "params", workers=14 if t else 10)
+    retrace_mc(run, scratch, "records_thorough" if t else "records_quick", "params", workers=14 if t else 10)
+    retrace_trace(run, scratch, "Trace_Retrace_params", "params", 200 if t else 40, 300 if t else 120, SMALL_CORPUS,
+                  workers=14 if t else 10)
+    run.exhaustive = False
+    run.assumptions += COMMON_ASSUME
+
+
+@prop("C04")
+def c04(run, scratch):
+    t = run.tier == "thorough"
+    retrace_mc(run, scratch, "names_thorough" if t else "names_quick", "lookup", workers=14 if t else 10)
+    retrace_mc(run, scratch, "records_thorough" if t else "records_quick", "lookup", workers=14 if t else 10)
+    retrace_trace(run, scratch, "Trace_Retrace_lookup", "lookup", 120 if t else 30, 300 if t else 120, SMALL_CORPUS,
+                  workers=14 if t else 10)
+    retrace_trace(run, scratch, "Trace_Retrace_names", "names", 40 if t else 10, 400 if t else 200, [],
+                  workers=14 if t else 10)
+    run.exhaustive = False
+    run.assumptions += COMMON_ASSUME
+
+
+@prop("C02")
+def c02(run, scratch):
+    t = run.tier == "thorough"
+    for cfg in (["blocks_thorough", "files_thorough", "records_thorough", "names_quick", "entries_quick"] if t else
+                ["blocks_quick", "files_quick", "names_quick"]):
+        retrace_mc(run, scratch, cfg, "all", workers=14 if t else 10)
+    retrace_trace(run, scratch, "Trace_Retrace_all", "all", 300 if t else 60, 300 if t else 150, SMALL_CORPUS,
+                  workers=14 if t else 10)
+    run.exhaustive = False
+    run.assumptions += COMMON_ASSUME + ["mapper and cache are both held to the same TLA+ answer; text/typed stack traces and "
+                                        "signatures are compared under C07/C08/C16"]
+
+
+def _replay_retrace(run, scratch, rec):
+    replay_cases(run, scratch, rec["kind"], [rec["case"]], "retrace", header=[{"queries": rec["queries"]}],
+                 corrupt=_retrace_corrupt, extra_args=["all"])
+
+
+for _k in ["entries1", "entries_quick", "entries_thorough", "files_quick", "files_thorough", "blocks_quick",
+           "blocks_thorough", "records_quick", "records_thorough", "names_quick", "names_thorough"]:
+    REPLAYERS["MC_Retrace_" + _k] = _replay_retrace
